@@ -1,1 +1,10 @@
 import PytezosModel.Props.C25
+#print axioms C25.observe_ok
+#print axioms C25.inv_init
+#print axioms C25.inject_counters_partial
+#print axioms C25.clean_of_noDirectFill
+#print axioms C25.inject_counters_autofill_only
+#print axioms C25.inject_counters_of_repaired_fill
+#print axioms C25.inject_counters_fails_fill_twice
+#print axioms C25.inject_counters_fails_fill_with_pending
+#print axioms C25.counter_histories_not_clean
